@@ -89,7 +89,7 @@ func (k c17) Run(c *rt.Ctx) {
 		wantPos := -2
 		switch r.Intn(9) {
 		case 3: // a run-time fault on a constant call at a known offset, behind a varying amount of (also non-ASCII) text
-			conj := []string{"key != 'gr\xc3\xb6\xc3\x9fe'", "value != 'na\xc3\xafve'", "key != '\xc5\xbc\xc3\xb3\xc5\x82\xc4\x87'", "key ^= 'k'", "value != 'zzzz'", "strlen(key) > 0", "key != '" + strings.Repeat("y", r.Range(5, 60)) + "'", "value != '\xe6\x97\xa5\xe6\x9c\xac\xe8\xaa\x9e'"}
+			conj := []string{"key != 'gr\xc3\xb6\xc3\x9fe'", "value != 'na\xc3\xafve'", "key != '\xc5\xbc\xc3\xb3\xc5\x82\xc4\x87'", "key ^= 'k'", "value != 'zzzz'", "strlen(key) > 0", "key != '" + strings.Repeat("y", r.Range(5, 60)) + "'", "value != '\xe6\x97\xa5\xe6\x9c\xac\xe8\xaa\x9e'", "value != '100%d'", "key != '%s%s'", "value != '50%'"} // the last three since wave 15 (C17-ab: the query inside a format string)
 			var parts []string
 			for j, n := 0, r.Intn(5); j < n; j++ {
 				parts = append(parts, conj[r.Intn(len(conj))])
